@@ -39,6 +39,18 @@ CLAIMS = {
              "I_j + G_(j+1) + not I_(j+1) must be refuted by a run the Lean machine accepts (C09_path_from_splits). Partial: no "
              "algorithm-level theorem for the path property of labelled interpolation systems is proved.",
         design_ref="5 C09"),
+    "C17": dict(
+        technique="Lean 4 proof (name printing: printed symbols read back as the same name; quoting happens exactly where needed) tied by a mirror of Logic::protectName and by re-reading every printed object with two readers",
+        text="Theorems: for every name without bars and backslashes the printed form is a symbol token that reads back as that "
+             "name, and a name printed between bars would not read back as itself if printed bare. Tie: (1) Logic::protectName "
+             "against its Lean mirror on thousands of generated names; (2) scripts whose symbols carry awkward names (quoted, with "
+             "spaces, parentheses, semicolons, quotes, tabs; keywords; digit-first and number-like; names that look like the "
+             "solver's own): the printed model and get-value answer are read back by this project's reader (Lean evaluator: the "
+             "assertions hold, the values agree) and by opensmt itself (definitions instead of declarations: the assertions "
+             "and the printed values are satisfied), printed full cores must be unsatisfiable when read back (opensmt and z3), "
+             "printed interpolants must be readable, dumped queries must get the same answer from opensmt and z3. Partial: "
+             "abstract values of uninterpreted sorts are read back by this project's reader only.",
+        design_ref="5 C17"),
     "C18": dict(
         technique="Lean 4 proof (exit-status machine: status 0 iff no error response; chunk-independent framing of pipe input) tied by mutation fuzzing of the executable on a sanitizer build - partial",
         text="PARTIAL: crash freedom, memory safety and termination are searched for by fuzzing on a sanitizer build and are not "
